@@ -1,1 +1,9 @@
-From AUC Require Import C01.Model.
+(* C01 — SSDP messages survive the wire and decode independently of history.  Property theorems only. *)
+From Coq Require Import List Bool NArith ZArith.
+From AUC Require Import Prelude.PyStr Prelude.Utf8 C01.Model.
+Import ListNotations.
+
+(* every string of Unicode scalar values survives str.encode() / bytes.decode("utf-8","surrogateescape") *)
+Theorem C01_utf8_roundtrip : forall s, forallb is_scalar s = true -> dec_lenient (utf8_encode s) = s.
+Proof. exact dec_lenient_encode. Qed.
+Print Assumptions C01_utf8_roundtrip.
